@@ -869,7 +869,7 @@ def reannounce(rng):
     gname = rng.choice(['g4', 'g2', 'g3'])
     pl, files, n, plens = geo(gname)
     part = set(rng.sample(range(n), rng.randint(1, n - 1)))
-    a1 = peer(0, set(), serve='none', listen=True)
+    a1 = peer(0, set(range(n)), serve='none', listen=True)         # (holds nothing yet on its first visit, see the bitfield below)
     b = peer(1, part, serve='good')
     a2 = peer(2, set(range(n)), serve='good', label=a1['addr'] + '#2')      # the same peer, second visit
     a2['addr'], a2['id'] = a1['addr'], a1['id']
@@ -878,10 +878,14 @@ def reannounce(rng):
              send(0, fr('NotInterested')), {'op': 'advance', 'ms': 50},
              {'op': 'connect', 'peer': 1}, send(1, hs(), bf(part)), send(1, fr('Unchoke')), {'op': 'advance', 'ms': 500},
              {'op': 'close', 'peer': 1}, {'op': 'advance', 'ms': 1000, 'slice': 500},
-             send(2, hs(), bf(range(n))), send(2, fr('Unchoke')), {'op': 'advance', 'ms': 25000, 'slice': 1000}]
+             send(2, hs(), bf(range(n))), send(2, fr('Unchoke')),
+             # (should the client have kept the first connection instead, the peer announces its pieces there, as any
+             #  honest peer does on an open connection)
+             send(0, *[fr('Have', p) for p in range(n)]), send(0, fr('Unchoke')), {'op': 'serve', 'peer': 0, 'mode': 'good'},
+             {'op': 'advance', 'ms': 25000, 'slice': 1000}]
     sc = base(gname, [a1, b, a2], steps, [{'k': 'peers', 'peers': [0]}, {'k': 'peers', 'peers': [0]}], pat=rng.randrange(251))
     sc['family'] = 'honest'
-    sc['essential'] = [2]
+    sc['essential'] = [0, 2]
     return sc
 
 
